@@ -2,7 +2,8 @@
      A. the arena around a buffer,
      B. every in-memory adapter agrees with the documented std operation on every state,
      C. the default exact loops over ANY OS oracle agree with std's provided read_exact / write_all,
-     D. the two oracle instances never interrupt: their loops terminate within the fuel used,
+     D. the three oracle instances (file, byte queue, message queue) never interrupt: their loops
+        terminate within the fuel used,
      E. one step, histories (induction over the operation list), the checker on the model. *)
 From VM Require Import Prelude.MachInt Prelude.Outcome Prelude.Tok Prelude.C1314List Impl.Io Impl.Std Spec.C13 Suite.C13.
 
@@ -624,13 +625,15 @@ Qed.
 
 (* std's loops terminate on oracles that never fail: each round makes progress or stops *)
 Lemma std_read_exact_terminates {F} (os_read : F -> N -> F * os_rres) :
-  (forall f len, exists f' bs, os_read f len = (f', OsData bs)) ->
+  (forall f len f', os_read f len <> (f', OsRErr EInterrupted)) ->
   forall fuel f want acc, (N.to_nat want < fuel)%nat ->
   exists of out r, std_fd_read_exact os_read fuel f want acc = Val (of, out, r).
 Proof.
   intros Hos. induction fuel as [|k IH]; intros f want acc Hf; [lia|]. cbn [std_fd_read_exact].
   destruct (N.eqb_spec want 0); [eauto|].
-  destruct (Hos f want) as (f' & bs & ->). destruct (N.eqb_spec (nlen bs) 0); [eauto|]. apply IH. lia.
+  destruct (os_read f want) as [f' [bs|e]] eqn:E.
+  - destruct (N.eqb_spec (nlen bs) 0); [eauto|]. apply IH. lia.
+  - destruct e; try (eexists _, _, _; reflexivity). exfalso. exact (Hos _ _ _ E).
 Qed.
 Lemma std_write_all_terminates {F} (os_write : F -> list N -> F * os_wres) :
   (forall f d, exists f' n, os_write f d = (f', OsCount n)) ->
@@ -642,22 +645,35 @@ Proof.
   destruct (Hos f d) as (f' & cnt & ->). destruct (N.eqb_spec cnt 0); [eauto|]. apply IH. rewrite nlen_ndrop. lia.
 Qed.
 
-Definition is_fd (k : skind) : bool := match k with KFile | KQueue => true | _ => false end.
-Lemma os_read_data k f len : exists f' bs, os_read_of k f len = (f', OsData bs) /\ nlen bs <= len.
+Definition is_fd (k : skind) : bool := match k with KFile | KQueue | KMsgQ => true | _ => false end.
+(* every oracle instance answers with at most len bytes, or (message queue only) with EAGAIN; none
+   ever answers EINTR *)
+Lemma os_read_cases k f len : exists f' r, os_read_of k f len = (f', r) /\
+  (r = OsRErr EOther \/ exists bs, r = OsData bs /\ nlen bs <= len).
 Proof.
-  destruct k; cbn [os_read_of]; unfold file_read, queue_read; eexists _, _; (split; [reflexivity|]);
-    rewrite nlen_ntake; lia.
+  destruct k; cbn [os_read_of]; unfold file_read, queue_read, msgq_read;
+    try (eexists _, _; split; [reflexivity|]; right; eexists; split; [reflexivity|]; rewrite nlen_ntake; lia).
+  destruct (N.eqb_spec len 0) as [Hz|Hz].
+  - eexists _, _. split; [reflexivity|]. right. eexists. split; [reflexivity|]. cbn. lia.
+  - destruct (s_data f) as [|x t].
+    + eexists _, _. split; [reflexivity|]. left. reflexivity.
+    + destruct (msg_split (x :: t)) as [m r]. eexists _, _. split; [reflexivity|]. right.
+      eexists. split; [reflexivity|]. rewrite nlen_ntake. lia.
+Qed.
+Lemma os_read_no_eintr k f len f' : os_read_of k f len <> (f', OsRErr EInterrupted).
+Proof.
+  intros E. destruct (os_read_cases k f len) as (f1 & r & E1 & [->|(bs & -> & _)]); rewrite E1 in E; discriminate.
 Qed.
 Lemma os_write_count k f d : exists f' n, os_write_of k f d = (f', OsCount n) /\ n <= nlen d.
 Proof.
-  destruct k; cbn [os_write_of]; unfold file_write, queue_write;
+  destruct k; cbn [os_write_of]; unfold file_write, queue_write, msgq_write;
     try (destruct (nlen d =? 0); eexists _, _; (split; [reflexivity|]); lia);
     eexists _, _; (split; [reflexivity|]); lia.
 Qed.
 Lemma os_read_bounded k : forall f len f' bs, os_read_of k f len = (f', OsData bs) -> nlen bs <= len.
 Proof.
-  intros f len f' bs H. destruct (os_read_data k f len) as (f1 & b1 & E & Hl). rewrite E in H.
-  inversion H; subst. exact Hl.
+  intros f len f' bs H. destruct (os_read_cases k f len) as (f1 & r & E & [->|(b1 & -> & Hl)]); rewrite E in H;
+    inversion H; subst. exact Hl.
 Qed.
 Lemma os_write_bounded k : forall f d f' n, os_write_of k f d = (f', OsCount n) -> n <= nlen d.
 Proof.
@@ -669,22 +685,25 @@ Lemma agree_fd_read md k st pre : is_fd k = true ->
   Agree (ORead pre) (vm_step md k st (ORead pre)) (std_step k st (ORead pre)).
 Proof.
   intros Hk. assert (E : vm_step md k st (ORead pre) = lift_n (read_volatile_raw_fd (os_read_of k) st (arena pre) (win pre))
-                     /\ std_step k st (ORead pre) = let '(st', bs, r) := std_fd_read (os_read_of k) st (nlen pre) in Val (Some st', bs, rc_n r))
+                     /\ std_step k st (ORead pre) = let '(st', bs, r) := std_fd_read (os_read_of k) st (nlen pre) in Val (keep_if (rc_n r) st', bs, rc_n r))
     by (destruct k; try discriminate; split; reflexivity).
   destruct E as [-> ->]. unfold read_volatile_raw_fd, std_fd_read, lift_n. cbn [win vs_len vs_off].
-  destruct (os_read_data k st (nlen pre)) as (f' & bs & -> & Hl). cbn [omap fst snd rc_n].
-  rewrite arena_write by exact Hl.
-  eexists _, _, _, _, _. split; [reflexivity|]. split; [reflexivity|]. agree_tail.
-  split; [apply nlen_write_prefix; exact Hl|].
-  split; [|split; [discriminate|discriminate]].
-  intros _. split; [reflexivity|]. split; [exact Hl|reflexivity].
+  destruct (os_read_cases k st (nlen pre)) as (f' & r & -> & [->|(bs & -> & Hl)]); cbn [omap fst snd rc_n].
+  - (* the OS call failed (EAGAIN): nothing stored, the error is passed on *)
+    eexists _, _, _, _, _. split; [reflexivity|]. split; [reflexivity|]. agree_tail.
+    split; [reflexivity|]. split; [discriminate|]. split; [reflexivity|discriminate].
+  - rewrite arena_write by exact Hl.
+    eexists _, _, _, _, _. split; [reflexivity|]. split; [reflexivity|]. agree_tail.
+    split; [apply nlen_write_prefix; exact Hl|].
+    split; [|split; [discriminate|discriminate]].
+    intros _. split; [reflexivity|]. split; [exact Hl|reflexivity].
 Qed.
 
 Lemma agree_fd_write md k st d : is_fd k = true ->
   Agree (OWrite d) (vm_step md k st (OWrite d)) (std_step k st (OWrite d)).
 Proof.
   intros Hk. assert (E : vm_step md k st (OWrite d) = lift_n (write_volatile_raw_fd (os_write_of k) st (arena d) (win d))
-                     /\ std_step k st (OWrite d) = let '(st', r) := std_fd_write (os_write_of k) st d in Val (Some st', [], rc_n r))
+                     /\ std_step k st (OWrite d) = let '(st', r) := std_fd_write (os_write_of k) st d in Val (keep_if (rc_n r) st', [], rc_n r))
     by (destruct k; try discriminate; split; reflexivity).
   destruct E as [-> ->]. unfold write_volatile_raw_fd, std_fd_write, lift_n. cbn [win vs_len vs_off].
   rewrite arena_read_all.
@@ -707,7 +726,7 @@ Proof.
   destruct E as [-> ->].
   destruct (std_read_exact_terminates (os_read_of k)) with (fuel := (N.to_nat (nlen pre) + 2)%nat) (f := st)
     (want := nlen pre) (acc := @nil N) as (of & out & r & Hstd).
-  { intros f len. destruct (os_read_data k f len) as (f' & bs & E & _). eauto. }
+  { intros f len f'. apply os_read_no_eintr. }
   { lia. }
   rewrite Hstd. cbn [bind].
   unfold read_exact_volatile, exact_volatile. rewrite (win_offset0 pre Hb).
@@ -876,18 +895,20 @@ Proof.
   destruct o as [pre|pre|d|d|p].
   - destruct k; cbn [op_allowed] in Hal; try discriminate.
     + apply agree_slice_read. + apply agree_cursor_read. exact Hi.
-    + apply agree_fd_read. reflexivity. + apply agree_fd_read. reflexivity.
+    + apply agree_fd_read. reflexivity. + apply agree_fd_read. reflexivity. + apply agree_fd_read. reflexivity.
   - destruct k; cbn [op_allowed] in Hal; try discriminate.
     + apply agree_slice_read_exact. + apply agree_cursor_read_exact. exact Hi.
     + apply agree_fd_read_exact; [reflexivity|exact Hb]. + apply agree_fd_read_exact; [reflexivity|exact Hb].
+    + apply agree_fd_read_exact; [reflexivity|exact Hb].
   - destruct k; cbn [op_allowed] in Hal; try discriminate.
     + apply agree_mslice_write. + apply agree_vec_write. cbn [st_inv op_buf] in Hi. lia.
     + apply agree_cursor_write. exact Hi.
-    + apply agree_fd_write. reflexivity. + apply agree_fd_write. reflexivity.
+    + apply agree_fd_write. reflexivity. + apply agree_fd_write. reflexivity. + apply agree_fd_write. reflexivity.
   - destruct k; cbn [op_allowed] in Hal; try discriminate.
     + apply agree_mslice_write_all. + apply agree_vec_write_all; [cbn [st_inv op_buf] in Hi; lia|exact Hb].
     + apply agree_cursor_write_all; [exact Hi|exact Hb].
     + apply agree_fd_write_all; [reflexivity|exact Hb]. + apply agree_fd_write_all; [reflexivity|exact Hb].
+    + apply agree_fd_write_all; [reflexivity|exact Hb].
   - unfold vm_step, std_step. cbn [op_buf].
     eexists _, [], _, _, _. split; [reflexivity|]. split; [reflexivity|]. cbn [op_buf is_read].
     split; [reflexivity|]. split; [|split; [discriminate|reflexivity]].
@@ -1098,7 +1119,7 @@ Lemma exact_ok_iff_lemma : forall md k content st o budget st' m rc,
   | KSliceR | KCurR | KSliceW | KCurW =>
       (nlen (op_buf o) <= room_of k st -> rc = (1, 0))
       /\ (room_of k st < nlen (op_buf o) -> rc = if is_read o then (2, 0) else (3, 0))
-  | KFile | KQueue => exists ost bs, std_step k st o = Val (ost, bs, rc)
+  | KFile | KQueue | KMsgQ => exists ost bs, std_step k st o = Val (ost, bs, rc)
   end.
 Proof.
   intros md k content st o budget st' m rc Ho Hi Hx H.
